@@ -205,6 +205,9 @@ func truncCase(w *wire.Writer, r *pbfrun.Runner, f *file, procs int, headerFirst
 			break
 		}
 	}
+	if len(obs) == 0 {
+		return nil, nil // the runner had given up before this sweep: nothing was observed
+	}
 	for i := range obs {
 		o := &obs[i]
 		oc := outcome(o)
@@ -512,6 +515,41 @@ func damages() []dmg {
 			return pbfgen.Item{Node: &pbfgen.PlainNode{ID: 900030, Lat: 1, Lon: 2}}
 		}),
 	}
+	// several parallel columns damaged BY THE SAME AMOUNT (a check that compares the damaged columns
+	// with each other instead of with the column that counts the elements does not see it).  For
+	// every group of parallel columns of the format: every subset that leaves at least one column of
+	// the group as it was; shortened by 1 and 2, lengthened by 1 where a longer
+	// column is damage too (way and relation columns; a dense column longer than ids is not read).
+	sameName := func(kind string, cols []string, n int) string {
+		return fmt.Sprintf("%s_same_%s_%+d", kind, strings.Join(cols, "+"), -n)
+	}
+	trimAll := func(cols []string, n int) map[string]int {
+		m := map[string]int{}
+		for _, c := range cols {
+			m[c] = n
+		}
+		return m
+	}
+	for _, cols := range [][]string{{"lat", "lon"}, {"refs", "lat"}, {"refs", "lon"}} {
+		for _, n := range []int{1, 2, -1} { // (lat and lon both emptied = a way without locations: valid)
+			cols, n := cols, n
+			l = append(l, wayDmg(sameName("way", cols, n), func(w *pbfgen.Way, _ uint32) { w.Trim = trimAll(cols, n) }))
+		}
+	}
+	for _, cols := range [][]string{{"roles", "memids"}, {"roles", "types"}, {"memids", "types"}} {
+		for _, n := range []int{1, 2, -1} {
+			cols, n := cols, n
+			l = append(l, relDmg(sameName("rel", cols, n), func(r *pbfgen.Relation, _ uint32) { r.Trim = trimAll(cols, n) }))
+		}
+	}
+	for _, cols := range [][]string{{"lat", "lon"}, {"lat", "version"}, {"version", "uid"}, {"timestamp", "changeset", "uid"},
+		{"lat", "lon", "user_sid"}, {"version", "timestamp", "changeset", "uid", "user_sid", "visible"},
+		{"lat", "lon", "version", "timestamp", "changeset", "uid", "user_sid", "visible"}} {
+		for _, n := range []int{1, 2} {
+			cols, n := cols, n
+			l = append(l, denseDmg(sameName("dense", cols, n), func(d *pbfgen.Dense, _ uint32) { d.Trim = trimAll(cols, n) }))
+		}
+	}
 	return l
 }
 
@@ -543,11 +581,11 @@ func damageCase(w *wire.Writer, r *pbfrun.Runner, base *file, dm *dmg, pos int, 
 	return observeDamage(w, r, f, dm.name, pos, dm.inBlock, 2)
 }
 
-// sessionCase: one scanner on data[:k] of a valid file driven by a call script (Scan, Err, Header
-// in any order, going on well after Scan has returned false); case kind 7, judged in Coq against
-// the scanner.go model of C06/Session.v ("... then stops").
-func sessionCase(w *wire.Writer, r *pbfrun.Runner, f *file, k int, rng *rand.Rand) (*wire.Case, error) {
-	fds := pbfrun.Describe(f.desc, f.data, f.frames, [3]bool{}, nil)
+// sessionCase: one scanner driven by a call script (Scan, Err, Header, Close in any order, going on
+// well after Scan has returned false, Close after the end and sometimes in mid-scan); case kind 7,
+// judged in Coq against the scanner.go model of C06/Session.v ("... then stops"; Close returns).
+// mode 0: data[:k] of a valid file; mode 1: a damaged file, k = index of the damaged frame.
+func sessionCase(w *wire.Writer, r *pbfrun.Runner, f *file, fds []pbfrun.FrameDesc, mode, k int, class string, rng *rand.Rand) (*wire.Case, error) {
 	n := 0
 	for i := range fds {
 		n += len(fds[i].Objs)
@@ -566,14 +604,24 @@ func sessionCase(w *wire.Writer, r *pbfrun.Runner, f *file, k int, rng *rand.Ran
 		calls = append(calls, rng.Intn(3))
 	}
 	calls = append(calls, 0, 1, 2, 0, 1)
+	if mode == 0 && rng.Intn(4) == 0 { // Close in mid-scan (the scanner has been started by then)
+		at := 1 + rng.Intn(len(calls)-1)
+		calls = append(calls[:at], append([]int{3}, calls[at:]...)...)
+	}
+	calls = append(calls, 3, 0, 1, 2, 3, 1) // Close must return; then nothing comes back to life
 	procs := append(append([]int{}, procsList...), oddProcs...)[rng.Intn(len(procsList)+len(oddProcs))]
-	obs, err := r.Run(pbfrun.Job{Data: f.data, Procs: procs, Mode: "session", Units: []int{k}, Calls: calls})
+	cut := len(f.data)
+	if mode == 0 {
+		cut = k
+	}
+	obs, err := r.Run(pbfrun.Job{Data: f.data, Procs: procs, Mode: "session", Units: []int{cut}, Calls: calls})
 	if err != nil {
 		return nil, err
 	}
 	o := &obs[0]
-	c := &wire.Case{Class: "session"}
+	c := &wire.Case{Class: class}
 	c.Int(7)
+	c.Int(int64(mode))
 	pbfrun.EmitFrames(c, fds)
 	c.Int(int64(k))
 	c.Len(len(calls))
@@ -581,7 +629,11 @@ func sessionCase(w *wire.Writer, r *pbfrun.Runner, f *file, k int, rng *rand.Ran
 		c.Int(int64(x))
 	}
 	if o.Crash || o.Hang || o.Skipped || len(o.Resp) != len(calls) {
-		c.OracleFail = fmt.Sprintf("session on a file cut at %d: crash, hang or missing responses: %s", k, o.CrashMsg)
+		how := o.CrashMsg
+		if o.Hang {
+			how = "a call did not return (killed by the watchdog)"
+		}
+		c.OracleFail = fmt.Sprintf("%s, procs %d, calls %v (0 Scan 1 Err 2 Header 3 Close): crash, hang or missing responses: %s", class, procs, calls, how)
 		o.Resp, o.RespTok = nil, nil
 	}
 	c.Len(len(o.Resp))
@@ -589,8 +641,8 @@ func sessionCase(w *wire.Writer, r *pbfrun.Runner, f *file, k int, rng *rand.Ran
 		c.Int(o.Resp[i])
 		c.Tok(o.RespTok[i])
 	}
-	c.Desc = map[string]interface{}{"kind": "call script on a cut file", "file_seed": f.seed, "size": len(f.data), "cut": k, "procs": procs,
-		"calls (0 Scan 1 Err 2 Header)": calls, "responses": o.Resp}
+	c.Desc = map[string]interface{}{"kind": "call script", "mode (0 cut valid file, 1 damaged file)": mode, "file_seed": f.seed, "size": len(f.data), "k": k, "procs": procs,
+		"calls (0 Scan 1 Err 2 Header 3 Close)": calls, "responses": o.Resp}
 	return c, nil
 }
 
@@ -720,6 +772,7 @@ func observeDamage(w *wire.Writer, r *pbfrun.Runner, f *file, name string, pos i
 		}
 		exp = append(exp, fds[i].Objs...)
 	}
+	lastDamaged = &damagedFile{f, fds, di}
 	c := &wire.Case{Class: "damage:" + name}
 	c.Int(tag)
 	pbfrun.EmitFrames(c, fds)
@@ -834,6 +887,15 @@ func observeDamage(w *wire.Writer, r *pbfrun.Runner, f *file, name string, pos i
 	}
 	return c, nil
 }
+
+// the damaged file observeDamage saw last (for the call-script case on it)
+type damagedFile struct {
+	f   *file
+	fds []pbfrun.FrameDesc
+	di  int
+}
+
+var lastDamaged *damagedFile
 
 var lastDamage func(mut func(objs []uint64, oc int64) ([]uint64, int64)) *wire.Case
 
@@ -1066,6 +1128,9 @@ func main() {
 			if err != nil {
 				fail(err)
 			}
+			if c == nil {
+				continue
+			}
 			c.Trivial = len(f.desc.Blocks) == 0
 			w.Add(c)
 		}
@@ -1075,14 +1140,18 @@ func main() {
 		if err != nil {
 			fail(err)
 		}
-		w.Add(c)
+		if c != nil {
+			w.Add(c)
+		}
 		// ... and with a decoder count below 1 (every second file)
 		if i%2 == 0 {
 			c, err := truncCase(w, r, f, oddProc(), i%4 == 0)
 			if err != nil {
 				fail(err)
 			}
-			w.Add(c)
+			if c != nil {
+				w.Add(c)
+			}
 		}
 		// call scripts (Scan / Err / Header in any order, continued after the end) at some cuts
 		cuts := []int{0, 4, len(f.data)}
@@ -1093,7 +1162,7 @@ func main() {
 			if k > len(f.data) {
 				continue
 			}
-			c, err := sessionCase(w, r, f, k, rng)
+			c, err := sessionCase(w, r, f, pbfrun.Describe(f.desc, f.data, f.frames, [3]bool{}, nil), 0, k, "session", rng)
 			if err != nil {
 				fail(err)
 			}
@@ -1131,6 +1200,16 @@ func main() {
 					continue
 				}
 				w.Add(c)
+				// the failure is at the first or second block of the file: a call script with
+				// Close after the failed Start / Scan (every failure kind)
+				if lastDamaged != nil && lastDamaged.di <= 1 && !r.GaveUp() {
+					ld := lastDamaged
+					cs, err := sessionCase(w, r, ld.f, ld.fds, 1, ld.di, "session:damage:"+dm.name, rng)
+					if err != nil {
+						fail(err)
+					}
+					w.Add(cs)
+				}
 			}
 			// the same damage with the Skip flag of its element kind (one block position)
 			if skipKind(dm) >= 0 && len(poss) > 0 && !r.GaveUp() {
@@ -1273,7 +1352,7 @@ func main() {
 	}
 
 	// canaries: corrupted observations that Coq must flag (one per observable class)
-	if lastTrunc != nil {
+	if lastTrunc != nil && len(lastTrunc.runs) > 0 {
 		t := lastTrunc
 		// (1) the outcome of the last run (cut = size: success) reported as an error
 		rs := copyRuns(t.runs)
@@ -1299,7 +1378,7 @@ func main() {
 			w.Add(c)
 		}
 	}
-	if lastTrunc != nil {
+	if lastTrunc != nil && len(lastTrunc.runs) > 0 {
 		// (4) the offset reported after the last cut's scan off by one
 		rs := copyRuns(lastTrunc.runs)
 		rs[len(rs)-1].EndFSB++
